@@ -160,6 +160,18 @@ def scenarios_for(pid, tier, rng, comps):
         sc += sampled("c01p", rng, n // 5, comps, ["w_pub", "w_sub", "w_mixed"], connacks=KEPT + [[]] * 4, optgen=lambda r: {"promptAcks": True})
         sc += direct_mode("c01x", rng, n // 5, comps, ["w_pub", "w_mixed"])
         sc += timeout_drops("c01t", [[PUB(1)], [PUB(2)], [SUB(("x", 1))], [UNSUB("x")], [SUB(("x", 1)), UNSUB("x"), PUB(1)]])
+        # the connection ends because the client cannot write an acknowledgement of INBOUND traffic (PUBACK / PUBREC / PUBCOMP)
+        # while its own requests are in flight or follow: it is an abnormal end like any other, the requests go on
+        i = 0
+        for qi, pk in ((1, "PUBACK"), (2, "PUBREC"), (2, "PUBCOMP")):
+            for o in ("cutBefore", "cutAfter"):
+                for wl, tm, later in (([HANDLE(1), PUB(1)], ["pre", "conn"], 1), ([HANDLE(1), SUB(("x", 1))], ["pre", "conn"], 2), ([PUB(1)], ["conn"], 2)):
+                    inbound = [{"g": 1, "after": 1, "q": qi, "tag": 101}]
+                    sc_ = rf.scenario("c01a-%d" % i, wl, tm, [{"p": pk, "n": 1, "o": o}], inbound=inbound)
+                    # (not "idle": a client that never comes back would make that timing infeasible instead of failing)
+                    sc_["reqs"] += [{"k": "sleep", "ms": 30, "at": "conn"}, {"k": "pub", "q": later, "at": "conn"}]
+                    sc.append(sc_)
+                    i += 1
     elif pid == "C02":
         q2 = [w for w in comps["w_pub"] if any(r["q"] == 2 for r in w)]
         for m in (False, True):
@@ -277,6 +289,19 @@ def scenarios_for(pid, tier, rng, comps):
                     sc.append(rf.scenario("c18c-%d" % i, w, ["conn"] * len(w), [{"p": pk, "n": m + 1, "o": o} for m in range(ln)],
                                           opts={"respTimeoutMs": 40, "connTimeoutMs": 80}))
                     i += 1
+        # the acknowledgement of a RE-subscription swallowed (session lost at the broker, or AlwaysResubscribe): the first or
+        # the second of two established subscriptions, alone or with a publish pending behind them
+        for o in ("dropAck", "dropReq"):
+            for which in (3, 4):
+                for extra in ([], [PUB(1)]):
+                    for how in ("lost", "always"):
+                        wl = [SUB(("x", 1)), SUB(("y", 2)), PUB(1)] + extra
+                        fl = [{"p": "PUBLISH", "n": 1, "o": "cutAfter"}, {"p": "SUBSCRIBE", "n": which, "o": o}]
+                        oo = {"respTimeoutMs": 40, "connTimeoutMs": 80}
+                        if how == "always":
+                            oo["alwaysResub"] = True
+                        sc.append(rf.scenario("c18b-%d" % i, wl, ["conn"] * len(wl), fl, connacks=LOST[0] if how == "lost" else [], opts=oo))
+                        i += 1
         for j in range(n // 2):
             wl = rng.choice(comps[rng.choice(["w_pub", "w_mixed", "w_sub"])])
             fl = rng.choice(drops)
